@@ -289,7 +289,9 @@ func CheckC06(tier string) int {
 			}
 			ok, err := sendClass(h, receiver)
 			if err != nil {
-				if k == 0 && strings.Contains(err.Error(), "has the form of a class path") {
+				if k == 0 && cs.module == "NFT" && strings.Contains(cs.class, "/") && origin == holdingsAll(w) {
+					// a native class with the class-path delimiter is refused at the first send and nothing moved: no
+					// transfer took place, the property says nothing about it
 					stats.note("native-class-not-transferable", steps, cs.String())
 					return nil
 				}
